@@ -384,7 +384,8 @@ def write_text(inp, path, rng=None):
                     elif col in ("location", "id"):
                         row.append(fnum(loc[0]))
                     elif col == "lat":
-                        row.append(fnum(loc[1]))
+                        cf = (st.get("conflict") or {}).get(fnum(loc[0]))
+                        row.append(fnum(loc[1] + cf) if (cf and r.random() < 0.5) else fnum(loc[1]))
                     elif col == "lon":
                         row.append(fnum(loc[2]))
                     elif col in ("elev", "altitude"):
